@@ -437,6 +437,45 @@ func (p *Peer) gotOffer(m vclient.Msg) {
 	p.C.Send(vclient.Msg{"type": "answer", "id": id, "sdp": pc.LocalDescription().SDP})
 }
 
+
+// OfferSDP builds a sendonly audio+video offer with all candidates gathered (for WHIP).
+// The caller owns the returned PeerConnection.
+func OfferSDP() (string, *webrtc.PeerConnection, error) {
+	pc, err := newAPI().NewPeerConnection(webrtc.Configuration{})
+	if err != nil {
+		return "", nil, err
+	}
+	for _, k := range []struct {
+		kind string
+		cap  webrtc.RTPCodecCapability
+	}{{"audio", webrtc.RTPCodecCapability{MimeType: webrtc.MimeTypeOpus, ClockRate: 48000, Channels: 2}}, {"video", webrtc.RTPCodecCapability{MimeType: webrtc.MimeTypeVP8, ClockRate: 90000}}} {
+		local, err := webrtc.NewTrackLocalStaticRTP(k.cap, k.kind, "whip")
+		if err != nil {
+			pc.Close()
+			return "", nil, err
+		}
+		if _, err := pc.AddTransceiverFromTrack(local, webrtc.RTPTransceiverInit{Direction: webrtc.RTPTransceiverDirectionSendonly}); err != nil {
+			pc.Close()
+			return "", nil, err
+		}
+	}
+	offer, err := pc.CreateOffer(nil)
+	if err != nil {
+		pc.Close()
+		return "", nil, err
+	}
+	gather := webrtc.GatheringCompletePromise(pc)
+	if err := pc.SetLocalDescription(offer); err != nil {
+		pc.Close()
+		return "", nil, err
+	}
+	select {
+	case <-gather:
+	case <-time.After(10 * time.Second):
+	}
+	return pc.LocalDescription().SDP, pc, nil
+}
+
 // Publish creates a PeerConnection with the given tracks and sends the offer.
 func (p *Peer) Publish(id, label string, tracks []TrackSpec, replace string) (*Up, error) {
 	pc, err := p.api.NewPeerConnection(webrtc.Configuration{})
